@@ -260,6 +260,15 @@ static std::vector<Schema> make_schemas() {
         s.read_subsets = {{0, 1, 2, 3, 4, 5, 6, 7}, {7, 6, 5, 4, 3, 2, 1, 0}, {2, 5}, {1, 7, 3}};
         S.push_back(s);
     }
+    {
+        // column names that are prefixes of one another (in both orders, different cell types) and units that a unit
+        // "sanitizer" would rewrite (blanks, the letters mu, a micro sign)
+        Schema s; s.label = "4:Double,Int32,UInt64,String (names prefix one another)"; s.cls = "mixed";
+        s.cols = {col("time_ms", "mV / ms", DataType::Double), col("time", "mumol", DataType::Int32), col("lab", "\xc2\xb5V", DataType::UInt64), col("label", " s ", DataType::String)};
+        s.subs = {Sub{{1}, 0}, Sub{{3, 1}, 0}, Sub{{2, 0, 1, 3}, 0}, Sub{{1, 2}, 2}};
+        s.read_subsets = {{0, 1, 2, 3}, {3, 2, 1, 0}, {1}, {2, 1}};
+        S.push_back(s);
+    }
     return S;
 }
 
